@@ -192,6 +192,10 @@ impl ByteCompiler<'_> {
         let exit = self.jump_if_true(&done_reg);
         self.register_allocator.dealloc(done_reg);
 
+        // NOTE: If the binding initialization or the body throws, the iterator has to be removed
+        //       from the iterator stack, otherwise an enclosing loop would use it as its own.
+        let handler_index = self.push_handler();
+
         let outer_scope = self.push_declarative_scope(for_in_loop.scope());
 
         // For let/const with a local identifier binding, emit iterator_value
@@ -249,6 +253,30 @@ impl ByteCompiler<'_> {
         }
 
         self.compile_stmt(for_in_loop.body(), use_expr, true);
+
+        {
+            let exit = self.jump();
+            self.patch_handler(handler_index);
+
+            let has_exception = self.register_allocator.alloc();
+            let exception = self.register_allocator.alloc();
+            self.bytecode
+                .emit_maybe_exception(has_exception.variable(), exception.variable());
+
+            self.iterator_close(false);
+
+            let is_generator_return = self.jump_if_false(&has_exception);
+            self.register_allocator.dealloc(has_exception);
+
+            self.bytecode.emit_throw(exception.variable());
+            self.register_allocator.dealloc(exception);
+
+            self.patch_jump(is_generator_return);
+            self.bytecode.emit_re_throw();
+
+            self.patch_jump(exit);
+        }
+
         self.pop_declarative_scope(outer_scope);
 
         self.bytecode.emit_jump(start_address);
